@@ -389,7 +389,7 @@ fn compare(model: &gen::Ty, ts: &Ty, ext_implied: bool, what: &str, out: &mut Ve
                 return;
             };
             *counters.entry("object_types_compared").or_insert(0) += 1;
-            // expected members: root, additions (a group is either flattened or one member holding the grouped components), second root
+            // expected members: root, additions (the components of a group are members of the object itself), second root
             let mut exp: Vec<(&Comp, bool)> = s.root.iter().map(|c| (c, false)).collect();
             let mut groups: Vec<&[Comp]> = vec![];
             if let Some(adds) = &s.ext {
@@ -409,7 +409,10 @@ fn compare(model: &gen::Ty, ts: &Ty, ext_implied: bool, what: &str, out: &mut Ve
             // flatten group members of the TS side
             let mut got: Vec<(String, bool, &Ty)> = vec![];
             for (n, o, t) in members {
-                if n.starts_with("ext_group_") {
+                if n.starts_with("ext_group_") && !exp.iter().any(|(c, _)| mangle(&c.name) == *n) {
+                    // JER (X.697) encodes the components of an extension addition group as members of the object itself; a
+                    // member named after the compiler's internal pseudo component is not a component of the type
+                    out.push(("members|extension-group-as-nested-object".into(), format!("{what}: the extension addition group shows up as the member `{n}` (a nested object) instead of its components being members of the object")));
                     if let Ty::Obj { members: gm, .. } = t {
                         for (gn, go, gt) in gm {
                             got.push((gn.clone(), *go, gt));
@@ -747,6 +750,113 @@ fn check_templates(seed: u64, n: u64, rep: &mut Report) {
     }
 }
 
+/// Notation the grammar generator does not spell: comments between enumerals / components / alternatives (line comments, block
+/// comments on one line and over several lines, with brackets inside), empty SEQUENCE OF / SET OF values (alone, nested, as
+/// DEFAULT), extension addition groups with and without version number. Enumerated over the product below; every output must
+/// be well-formed (brackets balanced outside strings and comments) and declare what the module defines.
+fn hand_cases(rep: &mut Report) {
+    let comments: [(&str, &str); 6] = [
+        ("line", "-- note\n"),
+        ("line-with-brace", "-- note {\n"),
+        ("block", "/* note */"),
+        ("block-with-bracket", "/* note [ */"),
+        ("block-multi-line", "/* multi\nline */"),
+        ("block-multi-line-with-brace", "/* multi\nline { ( */"),
+    ];
+    let mut cases: Vec<(String, String, String)> = vec![]; // (family, key, source)
+    for (cn, c) in comments {
+        for pos in 0..3 {
+            // the comment behind the first / a middle / the last enumeral (before or after the comma)
+            let at = |i: usize| if i == pos { format!(" {c} ") } else { " ".to_string() };
+            cases.push(("comment-after-enumeral".into(), format!("{cn}|pos={pos}"), format!("Mh DEFINITIONS AUTOMATIC TAGS ::= BEGIN\nEh ::= ENUMERATED {{ ea,{}eb{},{}ec{}}}\nEx ::= ENUMERATED {{ xa{}, ..., xb }}\nEND\n", at(0), at(1), at(9), at(2), at(0))));
+            cases.push(("comment-after-component".into(), format!("{cn}|pos={pos}"), format!("Mh DEFINITIONS AUTOMATIC TAGS ::= BEGIN\nSh ::= SEQUENCE {{ sa INTEGER,{}sb BOOLEAN OPTIONAL{},{}sc NULL{}}}\nCh ::= CHOICE {{ ca NULL,{}cb INTEGER{}}}\nEND\n", at(0), at(1), at(9), at(2), at(0), at(2))));
+        }
+    }
+    for (k, elem, val) in [("sequence-of", "SEQUENCE OF BOOLEAN", "{}"), ("set-of", "SET OF INTEGER", "{}"), ("nested", "SEQUENCE OF SEQUENCE OF INTEGER", "{ {}, { 1 }, {} }"), ("one-element", "SEQUENCE OF BOOLEAN", "{ TRUE }")] {
+        cases.push(("empty-list-value".into(), format!("{k}|assignment"), format!("Mh DEFINITIONS AUTOMATIC TAGS ::= BEGIN\nLh ::= {elem}\nvlh Lh ::= {val}\nEND\n")));
+        cases.push(("empty-list-value".into(), format!("{k}|default"), format!("Mh DEFINITIONS AUTOMATIC TAGS ::= BEGIN\nLh ::= {elem}\nSh ::= SEQUENCE {{ l Lh DEFAULT {val}, m INTEGER }}\nEND\n")));
+    }
+    for (k, body) in [
+        ("group", "a INTEGER, ..., [[ b INTEGER, c BOOLEAN OPTIONAL ]]"),
+        ("group-with-version", "a INTEGER, ..., [[ 2: b INTEGER, c BOOLEAN OPTIONAL ]]"),
+        ("two-groups-and-second-root", "a INTEGER, ..., [[ b INTEGER ]], d NULL OPTIONAL, [[ 3: e BOOLEAN, f INTEGER DEFAULT 1 ]], ..., z BOOLEAN"),
+    ] {
+        for kw in ["SEQUENCE", "SET"] {
+            cases.push(("extension-group".into(), format!("{k}|{kw}"), format!("Mh DEFINITIONS AUTOMATIC TAGS ::= BEGIN\nGh ::= {kw} {{ {body} }}\nEND\n")));
+        }
+    }
+    for (family, key, src) in cases {
+        let run = comp::ts(&[src.clone()]);
+        rep.evaluations += 1;
+        let comp::Outcome::Ok { generated, warnings } = &run.out else {
+            rep.count(&format!("hand_cases[{family}][not Ok]"), 1);
+            continue;
+        };
+        if !warnings.is_empty() {
+            rep.count(&format!("hand_cases[{family}][warnings]"), 1);
+            continue;
+        }
+        rep.count(&format!("hand_cases_judged[{family}]"), 1);
+        rep.nontrivial.insert(hash_str(&src));
+        let origin = format!("hand({family}|{key})");
+        let nss = match parse(generated) {
+            Ok(n) => n,
+            Err(e) => {
+                let k0 = key.split('|').next().unwrap_or("");
+                rep.violations.push(Violation { sig: format!("c18|output-not-well-formed|{family}|{k0}"), what: format!("TypeScript output is not well-formed ({e}) [{origin}]: {}", one_line(generated, 300)), replay: json!({"origin": origin, "sources": [src]}) });
+                continue;
+            }
+        };
+        let Some(ns) = nss.first() else { continue };
+        let find = |n: &str| ns.decls.iter().find(|d| d.0 == n).map(|d| &d.1);
+        let mut bad: Vec<String> = vec![];
+        match family.as_str() {
+            "comment-after-enumeral" => {
+                for (n, want) in [("Eh", vec!["ea", "eb", "ec"]), ("Ex", vec!["xa", "xb"])] {
+                    match find(n) {
+                        Some(Decl::Enum(ms)) if ms.iter().map(|m| m.1.as_str()).collect::<Vec<_>>() == want => {}
+                        other => bad.push(format!("{n}: expected enum members {want:?}, found {other:?}")),
+                    }
+                }
+            }
+            "comment-after-component" => {
+                match find("Sh") {
+                    Some(Decl::Type(Ty::Obj { members, .. })) if members.iter().map(|m| (m.0.as_str(), m.1)).collect::<Vec<_>>() == [("sa", false), ("sb", true), ("sc", false)] => {}
+                    other => bad.push(format!("Sh: expected members sa, sb?, sc, found {other:?}")),
+                }
+                match find("Ch") {
+                    Some(Decl::Type(Ty::Union(v))) if v.len() == 2 => {}
+                    other => bad.push(format!("Ch: expected a union of two single-key objects, found {other:?}")),
+                }
+            }
+            "empty-list-value" => {
+                if !matches!(find("Lh"), Some(Decl::Type(Ty::Arr(_)))) {
+                    bad.push(format!("Lh: expected an array type, found {:?}", find("Lh")));
+                }
+                if key.ends_with("assignment") && !matches!(find("vlh"), Some(Decl::Const)) {
+                    bad.push(format!("vlh: expected an exported constant, found {:?}", find("vlh")));
+                }
+            }
+            _ => {
+                let want: Vec<(&str, bool)> = match key.split('|').next().unwrap_or("") {
+                    "two-groups-and-second-root" => vec![("a", false), ("b", false), ("d", true), ("e", false), ("f", true), ("z", false)],
+                    _ => vec![("a", false), ("b", false), ("c", true)],
+                };
+                match find("Gh") {
+                    Some(Decl::Type(Ty::Obj { members, index_sig })) if *index_sig && members.iter().map(|m| (m.0.as_str(), m.1)).collect::<Vec<_>>() == want => {}
+                    Some(Decl::Type(Ty::Obj { members, .. })) if members.iter().any(|m| m.0.starts_with("ext_group_")) => {
+                        rep.violations.push(Violation { sig: "c18|members|extension-group-as-nested-object".into(), what: format!("Gh: the extension addition group shows up as a nested object member (`{}`) instead of its components being members of the object [{origin}]", members.iter().map(|m| m.0.as_str()).collect::<Vec<_>>().join(", ")), replay: json!({"origin": origin, "sources": [src.clone()]}) });
+                    }
+                    other => bad.push(format!("Gh: expected members {want:?} and an index signature, found {other:?}")),
+                }
+            }
+        }
+        for b in bad {
+            rep.violations.push(Violation { sig: format!("c18|hand-case-shape|{family}|{}", key.split('|').next().unwrap_or("")), what: format!("{b} [{origin}]"), replay: json!({"origin": origin, "sources": [src.clone()]}) });
+        }
+    }
+}
+
 /// JER object keys are the ASN.1 identifiers themselves (X.697): component and alternative names that are reserved words of
 /// ECMAScript / TypeScript are legal property names and must come out unchanged. Exhaustive over 40 such words x {SEQUENCE
 /// component, SET component, CHOICE alternative, component of a nested anonymous SEQUENCE}.
@@ -847,5 +957,6 @@ pub fn run(ctx: &Ctx) -> Report {
     let mut rep = acc.into_inner();
     check_templates(seed, ctx.pick(300u64, 4000), &mut rep);
     reserved_word_keys(&mut rep);
+    hand_cases(&mut rep);
     rep
 }
